@@ -1,6 +1,9 @@
 package compile
 
 import (
+	"errors"
+	"fmt"
+
 	"github.com/antlr4-go/antlr/v4"
 	"github.com/verily-src/fhirpath-go/fhirpath/internal/funcs"
 	"github.com/verily-src/fhirpath-go/fhirpath/internal/grammar"
@@ -21,6 +24,41 @@ func PopulateConfig(options ...opts.CompileOption) (*opts.CompileConfig, error) 
 	return config, err
 }
 
+// ErrNestingTooDeep is returned for an expression whose operators, parentheses or
+// calls are nested deeper than MaxNesting.
+var ErrNestingTooDeep = errors.New("expression is nested too deeply")
+
+// MaxNesting bounds how deeply an expression may nest parentheses, brackets, calls
+// and prefix signs. The parser, the visitor and the evaluator all recurse once per
+// level; without a bound a long enough source overflows the goroutine stack, which
+// ends the process rather than returning an error.
+const MaxNesting = 10000
+
+// nesting returns the deepest nesting of brackets and prefix signs among the tokens.
+func nesting(tokens []antlr.Token) int {
+	deepest, open, signs := 0, 0, 0
+	for _, token := range tokens {
+		switch token.GetText() {
+		case "(", "[":
+			open++
+			signs = 0
+		case ")", "]":
+			if open > 0 {
+				open--
+			}
+			signs = 0
+		case "+", "-":
+			signs++
+		default:
+			signs = 0
+		}
+		if open+signs > deepest {
+			deepest = open + signs
+		}
+	}
+	return deepest
+}
+
 // Tree creates an ANTLR parsing context from the provided FHIRPath string.
 func Tree(expr string) (grammar.IProgContext, error) {
 	inputStream := antlr.NewInputStream(expr)
@@ -31,6 +69,10 @@ func Tree(expr string) (grammar.IProgContext, error) {
 	lexer.RemoveErrorListeners()
 	lexer.AddErrorListener(errorListener)
 	tokens := antlr.NewCommonTokenStream(lexer, antlr.TokenDefaultChannel)
+	tokens.Fill()
+	if depth := nesting(tokens.GetAllTokens()); depth > MaxNesting {
+		return nil, fmt.Errorf("%w: %d levels, at most %d are supported", ErrNestingTooDeep, depth, MaxNesting)
+	}
 
 	// Parse the tokens
 	p := grammar.NewfhirpathParser(tokens)
